@@ -16,7 +16,7 @@ for ob in r.obligations:
         if res!='unsat':
             n+=1
             print('=====',ob.name,res,round(dt,2),len(ob.pc),'pcs')
-            for p in ob.pc: print('   pc:', str(z3.simplify(p)).replace('\n',' ')[:230])
-            print('   GOAL:', str(z3.simplify(ob.goal)).replace('\n',' ')[:400])
+            for p in ob.pc: print('   pc:', str(z3.simplify(p)).replace('\n',' ')[:int(__import__("os").environ.get("W","230"))])
+            print('   GOAL:', str(z3.simplify(ob.goal)).replace('\n',' ')[:int(__import__("os").environ.get("W","400"))])
             open(f'/tmp/hard_{n}.smt2','w').write(txt)
             if n>=int(sys.argv[4]) if len(sys.argv)>4 else 1: break
